@@ -170,6 +170,10 @@ impl Model {
 
         let rays = ray_origins.iter().map(|origin| Ray::new(*origin, *ray_dir));
         let num_rays = rays.len();
+        // Hueco sin posición definida (sin puntos de muestreo): superficie soleada al 100%
+        if num_rays == 0 {
+            return 1.0;
+        }
         let mut num_intersects = 0;
 
         let bvh = BVH::build(candidate_occluders, 30);
